@@ -471,3 +471,156 @@ def parenttype(pid):
         res.floor("creation call sites", n, ctx.table("floors").get("parent_sites", 0))
         return res
     return run
+
+
+# ---------------------------------------------------------------------------
+def initkind(pid):
+    """R-INITKIND: a chain object initialises every sector it adds with the SectorInit it was opened with.  The
+    directory chain must therefore always be handled with SectorInit::Dir (new sectors hold blank entries, not
+    zeros) and the MiniFAT chain with SectorInit::Fat (new cells are FREE, not 0 = 'points to mini sector 0')."""
+    def run(ctx):
+        res = RuleResult("R-INITKIND(%s)" % pid, "every open_chain / extend_chain on the directory chain carries SectorInit::Dir and every one on the MiniFAT chain carries SectorInit::Fat")
+        typed = ctx.table("follow").get("typed_chains", [])
+        n = 0
+        for f in ctx.fx.fns.values():
+            v = view(ctx, f)
+            pr = None
+            for bb, c in sorted(v.calls.items()):
+                if not re.search(r"::(open_chain|extend_chain)$", c.name) or len(c.term["args"]) < 3:
+                    continue
+                pr = pr or Prov(f)
+                start = pr.operand(c.term["args"][1])
+                init = pr.operand(c.term["args"][2])
+                for row in typed:
+                    if not re.search(row["start"], start):
+                        continue
+                    n += 1
+                    key = "R-INITKIND/%s/%s" % (f.path, row["what"])
+                    if init == row["init"]:
+                        res.ok({"function": f.path, "chain": row["what"], "call": c.name.split("::")[-1], "init": init}, nontrivial=True)
+                    else:
+                        res.fail(Finding(res.rule, key + "/wrong-initialiser", "the %s chain is handled with %s in %s (line %d); sectors added through this chain object would be initialised as %s instead of %s (%s)" % (row["what"], init, c.name.split("::")[-1], c.line, init, row["init"], row["why"]), f, c.term["span"]))
+        res.floor("typed-chain calls", n, ctx.table("floors").get("initkind_sites", 0))
+        return res
+    return run
+
+
+# ---------------------------------------------------------------------------
+def killread(pid):
+    """R-KILLREAD: the link stored in a FAT (MiniFAT) cell is read before the cell is overwritten with
+    END_OF_CHAIN / FREE_SECTOR.  Reading it afterwards yields the marker, so the rest of the chain is neither
+    walked nor freed."""
+    def run(ctx):
+        res = RuleResult("R-KILLREAD(%s)" % pid, "no chain link is read from a FAT / MiniFAT cell after the same cell was overwritten with END_OF_CHAIN or FREE_SECTOR in the same function")
+        pairs = ((r"Allocator::<F>::set_fat$", r"Allocator::<F>::next$"), (r"MiniAllocator::<F>::set_minifat$", r"MiniAllocator::<F>::next_mini_sector$"))
+        n = 0
+        for f in ctx.fx.fns.values():
+            v = view(ctx, f)
+            pr = None
+            for (wrx, rrx) in pairs:
+                writes = [c for c in v.calls.values() if re.search(wrx, c.name) and len(c.term["args"]) > 2]
+                reads = [c for c in v.calls.values() if re.search(rrx, c.name) and len(c.term["args"]) > 1]
+                if not writes or not reads:
+                    continue
+                pr = pr or Prov(f)
+                names = {nm: l for l, nm in f.debug_names().items()}
+                for w in writes:
+                    val = pr.operand(w.term["args"][2])
+                    if not re.match(r"^const:(consts::)?(END_OF_CHAIN|FREE_SECTOR)$", val):
+                        continue
+                    n += 1
+                    cell = pr.operand(w.term["args"][1])
+                    redef = set()
+                    m = re.match(r"^var:(\w+)$", cell)
+                    if m and m.group(1) in names:
+                        redef = {("t", d[0]) if d[1] == "t" else ("s", d[0], d[1]) for d in pr.defs.get(names[m.group(1)], [])}
+                    after = v.pg.reach(v.ok_nodes(w.bb) or list(v.pg.succ[("t", w.bb)]), avoid=redef)
+                    late = [r for r in reads if pr.operand(r.term["args"][1]) == cell and ("t", r.bb) in after]
+                    key = "R-KILLREAD/%s/%s" % (f.path, cell[:60])
+                    if late:
+                        res.fail(Finding(res.rule, key + "/link-read-after-overwrite", "cell %s is overwritten with %s (line %d) and its link is read afterwards (line %d): the read returns the marker just written, so the remainder of the chain is lost - never walked, never freed" % (cell[:60], val.split(":")[-1], w.line, late[0].line), f, late[0].term["span"]))
+                    else:
+                        res.ok({"function": f.path, "cell": cell[:60], "overwritten_at": w.line, "marker": val.split(":")[-1]}, nontrivial=True)
+        res.floor("cell overwrites with a marker", n, ctx.table("floors").get("killread_sites", 0))
+        return res
+    return run
+
+
+# ---------------------------------------------------------------------------
+def sibflag(pid):
+    """R-SIBFLAG: a tree walk that pushes (left sibling, flag) and (right sibling, flag) of the same node onto its
+    work stack pushes the same flag for both: the two siblings hang off the same parent (sibling agreement; in
+    Directory::validate the flag is 'my parent is red', which decides the adjacent-red-nodes deviation)."""
+    from prov import _split_top
+
+    def run(ctx):
+        res = RuleResult("R-SIBFLAG(%s)" % pid, "wherever a walk pushes both sibling links of a node together with a per-parent flag, the left and the right push carry the same flag expression")
+        n = 0
+        for f in ctx.fx.fns.values():
+            v = view(ctx, f)
+            pr = None
+            pushes = {}
+            for bb, c in v.calls.items():
+                if not c.name.endswith("Vec::<T, A>::push") or len(c.term["args"]) < 2:
+                    continue
+                pr = pr or Prov(f)
+                val = pr.operand(c.term["args"][1])
+                if not (val.startswith("tuple(") and val.endswith(")")):
+                    continue
+                parts = _split_top(val[6:-1])
+                m = re.match(r"^(.*)\.(left_sibling|right_sibling)$", parts[0]) if parts else None
+                if not m or len(parts) < 2:
+                    continue
+                pushes.setdefault((pr.operand(c.term["args"][0]), m.group(1)), {})[m.group(2)] = (parts[1:], c)
+            for (cont, node), d in pushes.items():
+                if "left_sibling" in d and "right_sibling" in d:
+                    n += 1
+                    lf, lc = d["left_sibling"]
+                    rf, rc = d["right_sibling"]
+                    key = "R-SIBFLAG/%s" % f.path
+                    if lf != rf:
+                        res.fail(Finding(res.rule, key + "/siblings-disagree", "the left sibling is pushed with %s (line %d) but the right sibling with %s (line %d): both hang off the same node, so what the walk records about their parent must be the same (here: whether the parent is red - the adjacent-red-nodes check misses or misfires on right edges)" % ("; ".join(x[:60] for x in lf), lc.line, "; ".join(x[:60] for x in rf), rc.line), f, rc.term["span"]))
+                    else:
+                        res.ok({"function": f.path, "node": node[-50:], "flag": [x[:80] for x in lf]}, nontrivial=True)
+        res.floor("sibling push pairs", n, ctx.table("floors").get("sibflag_sites", 0))
+        return res
+    return run
+
+
+# ---------------------------------------------------------------------------
+def fold(pid):
+    """R-FOLD: the case-folding function used by compare_names returns, on every path, the result of an
+    upper-casing operation applied to its argument - never the argument itself.  'This class of characters has no
+    uppercase form' is a statement about Unicode that no guard in the code can establish (titlecase letters are
+    not lowercase and still have an uppercase mapping), so an unfolded early return is reported."""
+    def run(ctx):
+        res = RuleResult("R-FOLD(%s)" % pid, "every value returned by the comparator's case-folding function is the result of an upper-casing call on its argument")
+        path = ctx.table("orient").get("fold_function", "internal::path::cfb_uppercase_char")
+        f = ctx.fx.fns.get(path)
+        n = 0
+        if f is None:
+            res.gone.append(path)
+        else:
+            pr = Prov(f)
+            rets = []
+            for bb, blk in enumerate(f.blocks):
+                if blk["cleanup"]:
+                    continue
+                for i, st in enumerate(blk["stmts"]):
+                    if st["s"] == "assign" and st["place"]["local"] == 0 and not st["place"]["proj"]:
+                        rets.append((pr._def((bb, i, st), 0, ()), st["span"]))
+                t = blk["term"]
+                if t["t"] == "call" and not t["dest"]["proj"] and t["dest"]["local"] == 0:
+                    from cg import callee_name
+                    rets.append(("%s(%s)" % ((callee_name(t) or "?").split("::")[-1], ",".join(pr.operand(a) for a in t["args"])), t["span"]))
+            for (p, span) in rets:
+                alts = p[4:-1].split("|") if p.startswith("phi(") and p.endswith(")") else [p]
+                for a in alts:
+                    n += 1
+                    if re.search(r"upper", a, re.I) and "param:" in a:
+                        res.ok({"function": path, "returns": a[:90]}, nontrivial=True)
+                    else:
+                        res.fail(Finding(res.rule, "R-FOLD/%s/unfolded-return" % path, "the folding function can return %s, which is not the result of an upper-casing call: characters on that path are compared without case folding (names that differ only by case are then distinct, or sorted apart)" % a[:80], f, span))
+        res.floor("folded returns", n, ctx.table("floors").get("fold_returns", 0))
+        return res
+    return run
